@@ -455,3 +455,39 @@ pub fn shortframes_stream(maxlen: usize, ex: &mut ChildExec) -> Sink {
     sink.add("child.aborts", ex.aborts as u64);
     sink
 }
+
+/// C09 outbound: batches of blocks a peer can request at once, sizes around 1/3, 1/2 and 1x
+/// the limit. Oracle: every frame <= 4 MiB + 4 (each single block fits in a frame).
+pub fn pack_stream(seed: u64, cases: usize, ex: &mut ChildExec) -> Sink {
+    let mut rng = Rng::new(seed);
+    let mut sink = Sink::default();
+    const MAX: usize = 4 * 1024 * 1024;
+    // the largest data length whose single-block message is exactly MAX: body = n + 16
+    let fit = MAX - 16;
+    let mut batches: Vec<Vec<usize>> = vec![
+        vec![fit], vec![fit, fit], vec![fit, 1], vec![1, fit], vec![MAX / 2, MAX / 2], vec![MAX / 2 - 16, MAX / 2 - 16],
+        vec![MAX / 2 - 15, MAX / 2 - 16], vec![3 * 1024 * 1024, 3 * 1024 * 1024], vec![0], vec![0, 0, 0], vec![],
+        vec![MAX / 3; 7], vec![1024; 5000],
+    ];
+    for _ in 0..cases {
+        let n = 1 + rng.below(8);
+        batches.push((0..n).map(|_| match rng.below(6) {
+            0 => rng.below(100),
+            1 => MAX / 3 + rng.below(2000) - 1000,
+            2 => MAX / 2 + rng.below(64) - 32,
+            3 => fit - rng.below(40),
+            4 => rng.below(MAX / 4),
+            _ => 1024 * rng.below(3000),
+        }.min(fit)).collect());
+    }
+    for b in batches {
+        let op = format!("pack {}", b.iter().map(|n| n.to_string()).collect::<Vec<_>>().join(","));
+        let imp = ex.exec(&op);
+        sink.count(&format!("pack.blocks-{}", b.len().min(9)));
+        sink.add("pack.frames", imp.split(' ').count().saturating_sub(1) as u64);
+        sink.push(op, imp, format!("@maxsize {}", MAX + 4));
+    }
+    sink.add("child.hangs", ex.hangs as u64);
+    sink.add("child.aborts", ex.aborts as u64);
+    sink
+}
